@@ -358,6 +358,13 @@ def correspondence(ctx):
                 ctx.notes.append("time budget: shipped-suite cases cut short")
                 break
             gl.run_attributed(ctx, shipped_case(i), lambda c, k: run_cases(c, [k], n_mut=3))
+        # random selections over the shipped suite's own sets, variants and nets
+        for _ in range(14 if thorough else 1):
+            if ctx.remaining(budget + (0 if thorough else 25)) < 0:
+                ctx.notes.append("time budget: random shipped-suite selections cut short")
+                break
+            ctx.count("suite.shipped.random")
+            gl.run_attributed(ctx, gl.gen_shipped_case(rng, with_suite=False), lambda c, k: run_cases(c, [k], n_mut=1))
     finally:
         gl.cleanup()
 
